@@ -484,7 +484,7 @@ def call_cells():
             for kr in OPKINDS:
                 yield ("oper", o, kl, kr)
     for m in METHODS:
-        for k in ("fvar", "fconst", "itens", "btens"):
+        for k in ("fvar", "fconst", "itens", "btens", "cview"):
             for c in CONSTS:
                 yield ("meth", m, k, c)
 
@@ -540,11 +540,21 @@ def check_oper(cell):
     return None
 
 
+def make_cview():
+    """a constant view (explicit constant=True) of a non-constant tensor"""
+    import mygrad as mg
+
+    b = mg.tensor(np.array([0.5, -1.25]))
+    v = mg.reshape(b, (2,), constant=True)
+    v.hold = b
+    return v
+
+
 def check_meth(cell):
     import mygrad as mg
 
     _, m, k, c = cell
-    x = make_leaf(k, 0)
+    x = make_leaf(k, 0) if k != "cview" else make_cview()
     isfloat_src = x.dtype.kind == "f"
     try:
         r = METHODS[m](x, c)
@@ -682,4 +692,13 @@ def m_constant_view_reports_grad(v):
     return f.get("kind") == "grad_on_constant" and any(st[0] == "reshape" and st[2] is True for st in cell[1])
 
 
-MATCHERS = {"constant_view_reports_grad": m_constant_view_reports_grad}
+def m_view_behind_constant_link(v):
+    """F-C10b: a non-constant view (explicit constant=False) taken of a *constant view* of a non-constant base reports .grad None:
+    Tensor.grad mirrors the base's gradient through the chain of views, and no gradient passes the constant link."""
+    f = v.get("failure") or {}
+    cell = (v.get("case") or {}).get("cell") or [None]
+    return (cell[0] == "meth" and len(cell) == 4 and cell[2] == "cview" and cell[3] is False and f.get("kind") == "grad_none"
+            and cell[1] in ("m_transpose", "m_ravel", "m_squeeze", "m_swapaxes", "m_reshape"))
+
+
+MATCHERS = {"constant_view_reports_grad": m_constant_view_reports_grad, "view_behind_constant_link": m_view_behind_constant_link}
